@@ -74,6 +74,8 @@ def values_for(d, rnd, k):
         pool = pv.PREFIX_VALUES * 3 + pool
     if "DTuple" in kinds:
         pool = pv.tuple_values(rnd, 30, 2) + pool
+    if "DArray" in kinds:        # arrays only meet Array traits (array == x is element-wise: not modelled elsewhere)
+        pool = pv.ARRAY_VALUES
     return [rnd.choice(pool) for _ in range(k)]
 
 
@@ -107,7 +109,8 @@ def has_mapped_compound(d):
 
 
 def configs(rnd, quick):
-    fixed = (pv.fast_leaves(True) + pv.int_ranges() + pv.types_() + pv.STRINGS + pv.PREFIXES
+    fixed = (pv.fast_leaves(True) + pv.int_ranges() + pv.types_() + pv.STRINGS + pv.PREFIXES + pv.ARRAYS
+             + [["DUnion", [["DArray", 30, [3], 4], ["DInt"]]], ["DTuple", [["DArray", 33, None, 2], ["DInt"]]]]
              + [["DModule"], ["DTuple", []], ["DAny"],
                 ["DUnion", [["DInt"], ["DStr"]]], ["DUnion", [["DString", 0, 5, None], ["DCast", "CTInt"]]],
                 ["DUnion", [["DRangeF", pv.F(0.0), pv.F(1.0), 3], ["DEnum", [["PNone"]]], ["DTuple", [["DInt"], ["DInt"]]]]],
@@ -116,7 +119,7 @@ def configs(rnd, quick):
                 ["DTuple", [["DInt"], ["DStr"]]], ["DTuple", [["DUnion", [["DRangeF", pv.F(0.0), None, 1], ["DStr"]]], ["DBool"]]],
                 ["DTuple", [["DTuple", [["DInt"], ["DCast", "CTFloat"]]], ["DString", 1, 3, 1]]]])
     rand = []
-    for _ in range(80 if quick else 700):
+    for _ in range(60 if quick else 700):
         d = pv.gen_desc(rnd, 3)
         while has_mapped_compound(d):      # F19: only the fixed corpus histories exercise that shape
             d = pv.gen_desc(rnd, 3)
@@ -130,12 +133,19 @@ def gen_cases(ctx, rnd):
     quick = ctx.tier == "quick"
     cases = corpus()
     fixed, rand = configs(rnd, quick)
-    per_fixed, per_rand, maxlen = (9, 5, 4) if quick else (60, 15, 8)
+    per_fixed, per_rand, maxlen = (5, 4, 4) if quick else (60, 15, 8)
+    # every fixed configuration meets the key atoms once (None, bool, int, float, NaN, str, tuple, instance, class, ...)
+    key_atoms = [["PNone"], ["PBool", True], ["PInt", 1], ["PFloat", pv.F(0.5)], ["PFloat", pv.NAN], pv.S("a"),
+                 ["PTuple", [["PInt", 1], ["PInt", 2]]], ["PObj", 100, 1], ["PType", 100], ["PCallable", 1],
+                 ["PInt", 10 ** 400], ["PNpInt", 15, 1], ["PIndexObj", ["Raises", "EValueError"]]]
+    for d in fixed:
+        vals = key_atoms if not pv.has_kind(d, "DArray") else pv.ARRAY_VALUES
+        cases.append(dict(traits=[[0, d], [1, ["DInt"]]], ops=[["Attr", [[0, v]]] for v in vals]))
     for d, k in [(d, per_fixed) for d in fixed] + [(d, per_rand) for d in rand]:
         for _ in range(k):
             traits = [[0, d], [1, ["DInt"]]]
             if rnd.random() < 0.3:
-                traits.append([2, rnd.choice(fixed)])
+                traits.append([2, rnd.choice([f for f in fixed if not pv.has_kind(f, "DArray")])])
             descs = dict(traits)
             ops = [["Attr", [[1, ["PInt", 7]]]]] if rnd.random() < 0.7 else []
             for _ in range(rnd.randint(1, maxlen)):
@@ -188,6 +198,6 @@ def run(ctx):
     else:
         header = pv.header_with_sub(IMPORTS, envd["sub"])
         single.run(ctx, "c01_driver.py", cases, to_term, header, CASE_T, key_fn, describe, nontrivial, RELATION,
-                   check_obs=check_obs, shard=250)
+                   check_obs=check_obs, sanitize=(ctx.tier == "thorough"), shard=250)
     t2.gate(ctx, "C01")
     proof_gate(ctx, ok, log, PROPS)
